@@ -704,7 +704,11 @@ pub fn check(opts: &CheckOpts) -> i32 {
         "wall_s": wall,
         "violations": confirmed.len(),
     });
-    let evdir = root().join("evidence");
+    // runs against a scratch tree (VERIF_REPO) must not overwrite the evidence of the tree under /repo
+    let evdir = match std::env::var("VERIF_EVIDENCE_DIR") {
+        Ok(d) if !d.is_empty() => std::path::PathBuf::from(d),
+        _ => root().join("evidence"),
+    };
     let _ = std::fs::create_dir_all(&evdir);
     let evpath = evdir.join(format!("{}.json", prop));
     if let Err(e) = std::fs::write(&evpath, serde_json::to_string_pretty(&ev).unwrap()) {
